@@ -84,7 +84,35 @@ def coq_cond(c):
     raise ValueError(c)
 
 
+def elaborate_nest(case):
+    """a constructor argument  ['nest', k, t]  is  W(w=t)  written in a rule head: a variable k over the registered W instances
+    (the case's 'wrappers': heap objects appended after the P objects, their value in field 0) restricted to  k.w == t,
+    read as the variable plus one more conjunct of the body (symbolic.py: Variable._update_domain_and_kwargs_expression_)"""
+    if not any(t[0] == 'nest' for t in case['sel']):
+        return case
+    c = dict(case)
+    n = len(case['heap'])
+    c['heap'] = list(case['heap']) + [[w, 0, '', [], None, False, [0, 0], {'o': 0}, False] for w in case['wrappers']]
+    c['doms'] = list(case['doms'])
+    c['binders'] = list(case['binders'])
+    c['sel'] = []
+    cond = case['cond']
+    for t in case['sel']:
+        if t[0] != 'nest':
+            c['sel'].append(t)
+            continue
+        k = t[1]
+        c['doms'].append([k, [n + j for j in range(len(case['wrappers']))]])
+        c['binders'].append(['var', k])
+        eq = ['cmp', '==', ['map', ['f', 0], ['var', k]], t[2]]
+        cond = eq if cond is None else ['and', cond, eq, 'fn']
+        c['sel'].append(['var', k])
+    c['cond'] = cond
+    return c
+
+
 def coq_qcase(case):
+    case = elaborate_nest(case)
     heap = "[" + "; ".join("[" + "; ".join(coq_val(v) for v in o) + "]" for o in case['heap']) + "]"
     doms = "[" + "; ".join(f"({k}, [{'; '.join(coq_val({'o': i}) for i in d)}])" for k, d in case['doms']) + "]"
     def cb(b):
@@ -142,6 +170,8 @@ def term_keys(t, acc):
         term_keys(t[2], acc)
     elif t[0] == 'concat':
         acc.add(t[1])
+    elif t[0] == 'nest':
+        term_keys(t[2], acc)
     return acc
 
 
